@@ -225,6 +225,44 @@ def work_chunk(args):
     return agg
 
 
+def _chunk_child(conn, args):
+    try:
+        conn.send(("ok", work_chunk(args)))
+    except BaseException:
+        try:
+            conn.send(("err", traceback.format_exc()[-3000:]))
+        except Exception:
+            pass
+    finally:
+        conn.close()
+        os._exit(0)
+
+
+def work_chunk_isolated(args):
+    """One chunk = one fresh process (forked from a pool worker that itself never runs code under test).
+
+    The state of the process in which run i executes is then a function of (seed, chunk start, i) alone - the runs
+    start .. i-1 of the same chunk - and not of which chunks the pool happened to give the same worker before.  State
+    that the code under test keeps between calls (a module-level cache, a memo on a class) is thereby part of the
+    deterministic history, and a violation that needs it can be replayed as a *session* (see confirm_session)."""
+    ctx = multiprocessing.get_context("fork")
+    rd, wr = ctx.Pipe(duplex=False)
+    p = ctx.Process(target=_chunk_child, args=(wr, args))
+    p.start()
+    wr.close()
+    try:
+        kind, payload = rd.recv()
+    except EOFError:
+        p.join()
+        raise RuntimeError(f"chunk process for runs {args[4]}..{args[4] + args[5] - 1} died (exit code {p.exitcode})")
+    finally:
+        rd.close()
+    p.join()
+    if kind == "err":
+        raise RuntimeError("chunk process failed: " + payload)
+    return payload
+
+
 # ---------------------------------------------------------------- known findings
 
 
@@ -272,6 +310,11 @@ def replay(prop, path):
     with open(path) as f:
         body = json.load(f)
     mach = get_machine(body["machine"])
+    if body.get("kind") == "session":
+        # a session: earlier runs of the same process come first (their verdicts are not judged here), the last one
+        # is the run whose violation is recorded.  Only meaningful in a fresh interpreter, which ./check --replay is.
+        for prev in body["session_prefix"]:
+            _guarded_execute(mach, {"machine": body["machine"], "config": prev.get("config"), "ops": prev["ops"]}, (prop,), 60)
     run = {"machine": body["machine"], "config": body.get("config"), "ops": body["ops"]}
     res, err = _guarded_execute(mach, run, (prop,), 60)
     if err is not None:
@@ -291,6 +334,103 @@ def replay(prop, path):
     got = [(x["signature"], x["step"]) for x in res.violations if x["property"] == prop]
     print(f"NOT-REPRODUCED {path}: wanted {want['signature']}@{want['step']}, got {got[:5]}")
     return EXIT_NOT_REPRODUCED
+
+
+# ---------------------------------------------------------------- sessions (state kept by the code under test between runs)
+
+
+def _regenerate(mach, machine, prop, tier, verif_seed, index):
+    rng = random.Random(run_seed(verif_seed, machine, prop, tier, index))
+    run = mach.generate(rng, tier, prop)
+    run["machine"] = machine
+    return run
+
+
+def _session_body(prop, machine, verif_seed, tier, indices, runs, violation):
+    last = runs[-1]
+    return {
+        "kind": "session", "property": prop, "machine": machine, "verif_seed": verif_seed, "tier": tier,
+        "run_index": indices[-1], "session_indices": list(indices),
+        "session_prefix": [{"config": r.get("config"), "ops": r["ops"]} for r in runs[:-1]],
+        "config": last.get("config"), "ops": last["ops"], "violation": violation, "digest": None,
+    }
+
+
+def _session_reproduces(prop, body, tmpdir, timeout_s):
+    """Replay a candidate session in a fresh interpreter (the same code path a user's --replay takes)."""
+    import subprocess
+    path = os.path.join(tmpdir, "candidate.json")
+    with open(path, "w") as f:
+        json.dump(body, f)
+    env = dict(os.environ, PYTHONPATH=VERIF_DIR + os.pathsep + os.environ.get("PYTHONPATH", ""))
+    try:
+        r = subprocess.run([sys.executable, "-m", "simbib.cli", prop, "--replay", path], cwd=VERIF_DIR, env=env,
+                           capture_output=True, text=True, timeout=timeout_s)
+    except subprocess.TimeoutExpired:
+        return False
+    return r.returncode in (EXIT_VIOLATION, EXIT_OK) and "replayed " in r.stdout
+
+
+def confirm_session(prop, machine, tier, verif_seed, chunk_start, index, violation, run_timeout, budget_s=120.0):
+    """A violation seen in a worker that the same op list does not show in the parent: either the harness is not
+    deterministic (HARNESS-ERROR, as before) or the code under test kept state from an earlier run of the same process.
+    Decide by replaying the runs chunk_start..index in a fresh interpreter; if the violation is there (twice), shrink
+    the prefix (one earlier run, then halving) and return the session body.  None means: not reproducible."""
+    import tempfile
+    import shutil
+    mach = get_machine(machine)
+    t0 = time.time()
+    indices = list(range(chunk_start, index + 1))
+    try:
+        runs = {i: _regenerate(mach, machine, prop, tier, verif_seed, i) for i in indices}
+    except Exception:
+        return None
+    tmpdir = tempfile.mkdtemp(prefix="simbib_session_")
+    per_try = max(120, run_timeout * 2)
+
+    def ok(ix):
+        return _session_reproduces(prop, _session_body(prop, machine, verif_seed, tier, ix, [runs[i] for i in ix], violation),
+                                   tmpdir, per_try)
+    try:
+        if not ok(indices):
+            return None
+        best = indices
+        # most state leaks need one earlier run: try pairs, nearest first
+        for j in reversed(indices[:-1]):
+            if time.time() - t0 > budget_s / 2:
+                break
+            if ok([j, index]):
+                best = [j, index]
+                break
+        else:
+            pass
+        if len(best) > 2:
+            # halve the prefix while the violation stays
+            while len(best) > 2 and time.time() - t0 < budget_s:
+                half = best[:-1][len(best[:-1]) // 2:] + [index]
+                if ok(half):
+                    best = half
+                    continue
+                half = best[:-1][: len(best[:-1]) // 2] + [index]
+                if ok(half):
+                    best = half
+                    continue
+                break
+        if not ok(best):        # second, independent replay of the final session
+            return None
+        return _session_body(prop, machine, verif_seed, tier, best, [runs[i] for i in best], violation)
+    finally:
+        shutil.rmtree(tmpdir, ignore_errors=True)
+
+
+def write_session_replay(body):
+    os.makedirs(REPLAY_DIR, exist_ok=True)
+    blob = json.dumps(body, indent=1, ensure_ascii=True, sort_keys=True)
+    d8 = hashlib.sha256(blob.encode()).hexdigest()[:8]
+    path = os.path.join(REPLAY_DIR, f"{body['property']}-{body['verif_seed']}-session-{d8}.json")
+    with open(path, "w") as f:
+        f.write(blob + "\n")
+    return path
 
 
 # ---------------------------------------------------------------- the check
@@ -331,7 +471,7 @@ def run_check(prop, machine, tier, verif_seed, total_runs, chunk, budget_s, run_
                 a = next(it, None)
                 if a is None:
                     return
-                pending[ex.submit(work_chunk, a)] = a
+                pending[ex.submit(work_chunk_isolated, a)] = a
 
         submit_more()
         try:
@@ -388,6 +528,7 @@ def run_check(prop, machine, tier, verif_seed, total_runs, chunk, budget_s, run_
     exit_code = EXIT_OK
     known_hit = {}
     new_viol = []
+    session_viol = []      # violations that need state left behind by an earlier run of the same process
     for sig in sorted(violations):
         index, run, v = violations[sig]
         # confirm by re-execution in the parent from the op list alone
@@ -397,7 +538,14 @@ def run_check(prop, machine, tier, verif_seed, total_runs, chunk, budget_s, run_
             continue
         v2 = first_violation(res, prop, sig)
         if v2 is None or v2["step"] != v["step"]:
-            harness_errors.append((index, f"violation {sig} did not reproduce in parent (nondeterminism in harness)"))
+            body = None
+            if len(session_viol) < 3 and sig not in known:
+                body = confirm_session(prop, machine, tier, verif_seed, (index // chunk) * chunk, index, v, run_timeout)
+            if body is None:
+                harness_errors.append((index, f"violation {sig} did not reproduce in parent, nor as a session of the "
+                                              f"runs before it in a fresh interpreter (nondeterminism in harness)"))
+            else:
+                session_viol.append((sig, index, body))
             continue
         if sig in known:
             known_hit[sig] = tot["viol_count"][sig]
@@ -425,6 +573,14 @@ def run_check(prop, machine, tier, verif_seed, total_runs, chunk, budget_s, run_
         print(f"violation: {sig} (run {index}, {tot['viol_count'][sig]} runs; {n_before} ops -> {len(run_m['ops'])}): {v_m['message'][:400]}")
         print(f"VIOLATION property={prop} replay={path}")
 
+    for sig, index, body in session_viol:
+        exit_code = EXIT_VIOLATION
+        path = write_session_replay(body)
+        replay_paths.append(path)
+        print(f"violation: {sig} (run {index}, only after run(s) {body['session_indices'][:-1][:6]} in the same process: "
+              f"the code under test keeps state between calls; {tot['viol_count'][sig]} runs): {body['violation']['message'][:400]}")
+        print(f"VIOLATION property={prop} replay={path}")
+
     for index, err in harness_errors[:5]:
         print(f"HARNESS-ERROR run={index}: {err}", file=sys.stderr)
     if harness_errors and exit_code == EXIT_OK:
@@ -438,7 +594,7 @@ def run_check(prop, machine, tier, verif_seed, total_runs, chunk, budget_s, run_
         "prop": prop, "machine": machine, "tier": tier, "seed": verif_seed, "wall_s": wall,
         "tot": tot, "digest": dg.hexdigest()[:16], "last_index": last_index,
         "truncated": truncated, "requested_runs": total_runs, "workers": workers,
-        "known_hit": known_hit, "new_violations": [(s, p) for (s, *_), p in zip(new_viol, replay_paths)],
+        "known_hit": known_hit, "new_violations": [(s, p) for (s, *_), p in zip(new_viol + session_viol, replay_paths)],
         "harness_errors": len(harness_errors), "exit_code": exit_code, "saturated": sorted(saturated),
     }
     if write_evidence:
@@ -451,7 +607,7 @@ def run_check(prop, machine, tier, verif_seed, total_runs, chunk, budget_s, run_
             f"{prop} {tier} seed={verif_seed}: {tot['runs']} runs ({tot['nops']} ops, {tot['sim_steps']} sim-steps) "
             f"in {wall:.1f}s on {workers} workers; {len(tot['states'])} abstract states, "
             f"{len(tot['nontrivial_shapes'])} distinct non-trivial histories; faults {sum(tot['faults'].values())}; "
-            f"violations new={len(new_viol)} known={len(known_hit)}; digest {summary['digest']}"
+            f"violations new={len(new_viol) + len(session_viol)} known={len(known_hit)}; digest {summary['digest']}"
             + (" [wall budget reached before all runs]" if truncated else "")
         )
     return exit_code, summary
